@@ -398,6 +398,25 @@ def custom_moments(s):
     return np.array([np.mean(s), np.std(s), np.mean(np.abs(np.diff(s))), np.max(s) - np.min(s), np.mean(s ** 3)])
 
 
+def view_moments(s):
+    """a user moment calculator whose result ALIASES its argument (a view): the loss must not write into it"""
+    return np.asarray(s)[:5]
+
+
+_MEMO = {}
+
+
+def memo_moments(s):
+    """a memoising user moment calculator: returns its cached array object on a repeated series"""
+    s = np.asarray(s, dtype=float)
+    key = s.tobytes()
+    if key not in _MEMO:
+        if len(_MEMO) > 4000:
+            _MEMO.clear()
+        _MEMO[key] = custom_moments(s)
+    return _MEMO[key]
+
+
 def sym_matrix(seed, k):
     r = np.random.RandomState(seed)  # data only; seed comes from the check's PRNG and is stored in the case
     a = r.uniform(-1, 1, size=(k, k))
@@ -409,6 +428,8 @@ LOSS_KINDS = [
     ("minkowski_p1", True, True, True), ("minkowski_p2", True, True, True), ("minkowski_p3", True, True, True),
     ("msm_identity_default", True, True, True), ("msm_identity_custom", True, True, True),
     ("msm_identity_custom_std", True, True, True),
+    ("msm_identity_view_std", True, True, True), ("msm_identity_memo_std", True, True, True),
+    ("msm_invvar_view", True, True, False), ("msm_identity_memo", True, True, True),
     ("msm_invvar_custom", True, True, False), ("msm_invvar_default", True, True, False),
     ("msm_W_custom", True, False, False), ("msm_W_default", True, False, False),
     ("fourier_gauss", True, True, True), ("fourier_ideal", True, True, True),
@@ -438,6 +459,14 @@ def make_loss(case, weights, filters):
         return MethodOfMomentsLoss(covariance_mat="identity", moment_calculator=custom_moments, **kw)
     if k == "msm_identity_custom_std":
         return MethodOfMomentsLoss(covariance_mat="identity", moment_calculator=custom_moments, standardise_moments=True, **kw)
+    if k == "msm_identity_view_std":
+        return MethodOfMomentsLoss(covariance_mat="identity", moment_calculator=view_moments, standardise_moments=True, **kw)
+    if k == "msm_identity_memo_std":
+        return MethodOfMomentsLoss(covariance_mat="identity", moment_calculator=memo_moments, standardise_moments=True, **kw)
+    if k == "msm_identity_memo":
+        return MethodOfMomentsLoss(covariance_mat="identity", moment_calculator=memo_moments, **kw)
+    if k == "msm_invvar_view":
+        return MethodOfMomentsLoss(covariance_mat="inverse_variance", moment_calculator=view_moments, **kw)
     if k == "msm_invvar_custom":
         return MethodOfMomentsLoss(covariance_mat="inverse_variance", moment_calculator=custom_moments, **kw)
     if k == "msm_invvar_default":
